@@ -64,13 +64,6 @@ def _method(src, header_re, what):
     return src[k + 1:cxxscan.match_brace(src, k)]
 
 
-def _width(ctype, what):
-    w = {"uint32_t": 4, "std::uint32_t": 4, "int64_t": 8, "std::int64_t": 8, "char": 1}.get(ctype)
-    if w is None:
-        raise TranslateError("%s: unknown field type %s" % (what, ctype))
-    return w
-
-
 def gen(repo):
     f = "include/iora/storage/kvstore.hpp"
     j = "include/iora/storage/json_file_store.hpp"
@@ -150,7 +143,17 @@ def gen(repo):
         raise TranslateError("isPlausibleEpochMs: unexpected shape %r" % pl.strip())
     # repairs the model depends on (shape facts; the behaviour itself is tied by lockstep on images)
     truncates_tail = bool(re.search(r"resize_file\s*\(\s*_logPath", ld))
-    sweeps_once = bool(re.search(r"dropExpired\s*\(\s*\)", ld)) and not re.search(r"exp\s*>\s*now", ld)
+    # (a) load() itself never looks at the clock, (b) the constructor runs load(); <sweep>(); openLogFile(); and (c) the sweep
+    # drops exactly the entries of _expiry with expiry <= now, from both maps
+    sweeps_once = False
+    mctor = re.search(r"load\(\);\s*(\w+)\(\);\s*openLogFile\(\);", src)
+    if mctor and not re.search(r"\bnow\b", ld):
+        try:
+            sw = _method(src, r"void\s+%s\s*\(\s*\)" % re.escape(mctor.group(1)), mctor.group(1))
+            sweeps_once = bool(re.search(r"it->second\.expiry\s*<=\s*now", sw) and re.search(r"_kv\.erase\(it->first\)", sw)
+                               and re.search(r"it\s*=\s*_expiry\.erase\(it\)", sw) and re.search(r"system_clock::now\(\)", sw))
+        except TranslateError:
+            sweeps_once = False
     # ---- validateKeyValue
     vkv = _method(src, r"void\s+validateKeyValue\s*\([^)]*\)", "validateKeyValue")
     if not (re.search(r"key\.size\(\)\s*>\s*MAX_KEY_LENGTH", vkv) and re.search(r"value\.size\(\)\s*>\s*MAX_VALUE_LENGTH", vkv) and re.search(r"key\.empty\(\)", vkv)):
